@@ -748,6 +748,16 @@ def c04_huge_compare(gen):
                         if (rot + k) % 2:
                             one(x, x + 1, ka, kb, op, k)
                             one(x + 1, x, kb, ka, op, k + rot)
+    # a Natural >= 2^63 against a Real (small, and around 2^53 / 2^62 / 2^63), every operator, both orders, several
+    # producers: the unsigned -> real promotion of each comparison operator on its own (seeded C04-k2: `<=` alone
+    # read the Natural as signed; the rotation above samples only a third of the operators for such pairs)
+    for x in [P63, P63 + 1, P64 - 1] + [v for v in rnd if v >= P63][:2]:
+        for y in (0, 1, 2, 1024, P53, P62, P63):
+            for op in CMP_OPS:
+                for k in range(3):
+                    rot += 1
+                    one(x, y, "n", "r", op, k + rot)
+                    one(y, x, "r", "n", op, k)
     # && / || over two comparisons (comparisons bind tighter), with and without parentheses
     for j, (x, y) in enumerate(pairs[::3]):
         if x >= P63 or y >= P63:
